@@ -29,7 +29,7 @@ extern crate log;
 
 #[cfg(kani)]
 #[path = "/verif/harness/shim/mod.rs"]
-mod verif_shim;
+pub(crate) mod verif_shim;
 
 mod cancel;
 mod config;
